@@ -25,6 +25,9 @@ type genCfg struct {
 	markupText                                                      bool
 	multiByte                                                       bool
 	compound                                                        bool // compound assignment operators
+	typeFaultPct                                                    int  // percent of assignments given a value of another type
+	domainFaults                                                    bool // out-of-domain arguments to built-ins
+	visitLines                                                      bool // every line shows the visit counters of every node
 }
 
 var flowCfg = genCfg{maxNodes: 4, maxDepth: 4, maxStmts: 5, wOpts: 5, wIf: 4, wSet: 3, wJump: 2, wCmd: 1, wCall: 1,
@@ -101,6 +104,23 @@ func (g *dgen) expr(t string, depth int) *sx.Node {
 			return fnCall([]string{"floor", "ceil", "round", "inc", "dec", "integer", "decimal"}[g.r.Intn(7)], g.expr("num", depth-1))
 		case x < 10 && g.cfg.visitedFns && len(g.nodes) > 0:
 			return fnCall("visited_count", strLit(g.pick(g.nodes)))
+		case x < 11 && g.cfg.randomFns && g.cfg.domainFaults && g.r.Intn(3) == 0:
+			switch g.r.Intn(7) {
+			case 0:
+				return fnCall("dice", numLit(0))
+			case 1:
+				return fnCall("dice", g.lit(-3))
+			case 2:
+				return fnCall("dice", numLit(1e30))
+			case 3:
+				return fnCall("random_range", numLit(5), numLit(1))
+			case 4:
+				return fnCall("random_range", g.lit(-1e30), numLit(1e30))
+			case 5:
+				return fnCall("dice", binOp("/", numLit(0), numLit(0)))
+			default:
+				return fnCall("round_places", numLit(2.75), g.lit([]float64{-400, 400, 1e30, 2.5}[g.r.Intn(4)]))
+			}
 		case x < 11 && g.cfg.randomFns:
 			switch g.r.Intn(3) {
 			case 0:
@@ -213,6 +233,22 @@ func (g *dgen) line(allowCond bool) *sx.Node {
 	for g.r.Intn(4) == 0 && len(tags) < 3 {
 		tags = append(tags, sx.Str([]string{"tag", "line:12", "a_b", "é", "x-1"}[g.r.Intn(5)]))
 	}
+	if g.cfg.visitLines {
+		for _, n := range append(append([]string{}, g.nodes...), "Ghost") {
+			elems = append(elems, sx.Tag("t", sx.Str(" "+n+"=")), sx.Tag("e", fnCall("visited_count", strLit(n))),
+				sx.Tag("t", sx.Str("/")), sx.Tag("e", fnCall("visited", strLit(n))))
+		}
+		// keep the parser's normal form: no two adjacent text elements
+		merged := []*sx.Node{}
+		for _, e := range elems {
+			if len(merged) > 0 && e.TagName() == "t" && merged[len(merged)-1].TagName() == "t" {
+				merged[len(merged)-1] = sx.Tag("t", sx.Str(merged[len(merged)-1].L[1].Text()+e.L[1].Text()))
+			} else {
+				merged = append(merged, e)
+			}
+		}
+		elems = merged
+	}
 	return sx.Tag("line", sx.List(elems...), cond, sx.List(tags...))
 }
 
@@ -304,7 +340,14 @@ func (g *dgen) stmt(depth int) *sx.Node {
 				op = "+="
 			}
 		}
-		return sx.Tag("set", sx.Str(name), sx.Str(op), g.expr(t, c.exprDepth))
+		vt := t
+		if c.typeFaultPct > 0 && g.r.Intn(100) < c.typeFaultPct {
+			vt = g.otherType(t)
+		}
+		if c.typeFaultPct > 0 && g.r.Intn(40) == 0 {
+			name = "fresh" + strconv.Itoa(g.r.Intn(3)) // compound assignment to an unknown variable, or a first assignment
+		}
+		return sx.Tag("set", sx.Str(name), sx.Str(op), g.expr(vt, c.exprDepth))
 	case 4:
 		return sx.Tag("jump", g.target())
 	case 5:
